@@ -393,6 +393,16 @@ def main_std_types(only=None):
         for p, v in typ.items():
             if p in cols and not _same(net[element].at[idx, p], v):
                 fails.append(f"{element}: created from type: {p} = {net[element].at[idx, p]!r}, type defines {v!r}")
+        # the batch create functions apply the type as well (create_transformers: known finding of C24, not repeated here)
+        bmk = {"line": lambda n_: pp.create_lines(n_, [2, 3], [3, 2], [1.2, 0.7], "T1"),
+               "trafo3w": lambda n_: pp.create_transformers3w(n_, [0, 1], [2, 3], [4, 5], "T1")}.get(element)
+        if bmk is not None:
+            nb = base_net()
+            pp.create_std_type(nb, dict(typ), "T1", element=element)
+            for bi in bmk(nb):
+                for p, v in typ.items():
+                    if p in set(nb[element].columns) and not _same(nb[element].at[bi, p], v):
+                        fails.append(f"{element}: batch-created from type: {p}[{bi}] = {nb[element].at[bi, p]!r}, type defines {v!r}")
         # change_std_type to a second type with other values, then back after redefinition under the same name
         t2 = {k: (v * 1.25 if isinstance(v, float) else v) for k, v in typ.items()}
         pp.create_std_type(net, t2, "T2", element=element)
@@ -444,3 +454,98 @@ def _report(fails, ok):
 
 if __name__ == "__main__":
     {"pairs": main_pairs, "std": main_std_types}[sys.argv[1]](sys.argv[2] if len(sys.argv) > 2 else None)
+
+
+# ---- generic replay for the pairs that take their parameters as arguments (contracts/C24_pairs.py) ---------------------------------------
+PAR_PAIRS = {"load": ("create_load", "create_loads"), "sgen": ("create_sgen", "create_sgens"), "gen": ("create_gen", "create_gens"),
+             "storage": ("create_storage", "create_storages"), "shunt": ("create_shunt", "create_shunts"), "ward": ("create_ward", "create_wards"),
+             "impedance": ("create_impedance", "create_impedances"), "line": ("create_line_from_parameters", "create_lines_from_parameters"),
+             "trafo": ("create_transformer_from_parameters", "create_transformers_from_parameters")}
+_PAR_SKIP = {"net", "name", "index", "type", "geodata", "coords", "zone", "kwargs", "generator_type", "curve_style", "reactive_capability_curve",
+             "id_q_capability_characteristic", "tap_side", "tap2_side", "tap_changer_type", "tap2_changer_type", "vector_group", "id_characteristic_table",
+             "step_dependency_table", "tap_dependency_table"}
+
+
+def _par_vectors(sgl, n, pattern):
+    """argument vectors for every numeric / flag parameter of the single function (read from the real signature)
+    pattern: 'given' all values given, 'mixed' NaN-able / optional parameters given for even rows only, 'required' only required parameters"""
+    import inspect
+    sig = inspect.signature(getattr(pp, sgl))
+    pos, kw = [], {}
+    for j, (name, prm) in enumerate(sig.parameters.items()):
+        if name in _PAR_SKIP or prm.kind is prm.VAR_KEYWORD:
+            continue
+        ann = str(prm.annotation)
+        if prm.default is prm.empty:
+            if ann.startswith("Int") or name.endswith("bus"):
+                pos.append((name, None))        # bus arguments are filled by the caller
+            else:
+                pos.append((name, [round(0.5 + 0.125 * j + 0.25 * k, 4) for k in range(n)]))
+            continue
+        if pattern == "required":
+            continue
+        optional = prm.default is None or (isinstance(prm.default, float) and prm.default != prm.default)
+        if isinstance(prm.default, bool):
+            vals = [k % 2 == 0 for k in range(n)]
+        elif "bool" in ann and "float" in ann:      # controllable: bool | float = nan
+            vals = [True if k % 2 == 0 else np.nan for k in range(n)] if pattern == "mixed" else [k % 3 == 0 for k in range(n)]
+        else:
+            vals = [round(0.5 + 0.125 * j + 0.25 * k, 4) for k in range(n)]
+            if name == "power_station_trafo" or isinstance(prm.default, int) and not isinstance(prm.default, bool) or name.startswith("tap") and "percent" not in name and "degree" not in name:
+                vals = [float(j % 3 + k) for k in range(n)]
+            if optional and pattern == "mixed":
+                if prm.default is None:
+                    continue                                   # a None default cannot be mixed with numbers in one batch vector
+                vals = [v if k % 2 == 0 else np.nan for k, v in enumerate(vals)]
+        kw[name] = vals
+    return pos, kw
+
+
+def main_parpair(table, patterns=("given", "mixed", "required"), prefill=(False, True)):
+    sgl, bat = PAR_PAIRS[table]
+    fails = []
+    n = 3
+    bus_sets = [[2, 3, 2], [3, 2, 3]]
+    for pattern in patterns:
+        for pre in prefill:
+            tag = f"{sgl}(s) [{pattern}{', table has a row with every optional column' if pre else ''}]"
+            pos, kw = _par_vectors(sgl, n, pattern)
+            nets = []
+            err = []
+            for batch in (False, True):
+                net = base_net()
+                try:
+                    if pre:
+                        ppos, pkw = _par_vectors(sgl, 1, "given")
+                        nb = iter(bus_sets)
+                        getattr(pp, sgl)(net, *[(next(nb)[0] if v is None else v[0]) for _, v in ppos], **{a: v[0] for a, v in pkw.items()})
+                    nb = iter(bus_sets)
+                    args = [(next(nb) if v is None else v) for _, v in pos]
+                    if batch:
+                        getattr(pp, bat)(net, *args, **kw)
+                    else:
+                        for k in range(n):
+                            getattr(pp, sgl)(net, *[a[k] for a in args], **{a: v[k] for a, v in kw.items()})
+                    err.append(None)
+                except Exception as e:
+                    err.append(f"{type(e).__name__}: {str(e)[:120]}")
+                nets.append(net)
+            if err[0] is not None and err[1] is not None:
+                continue                # both reject the vector
+            if err[0] is not None or err[1] is not None:
+                fails.append(f"{tag}: single calls {'raise ' + err[0] if err[0] else 'succeed'}, batch call {'raises ' + err[1] if err[1] else 'succeeds'}")
+                continue
+            compare_tables(nets[0], nets[1], table, fails, tag)
+    return _report(fails, f"{bat} equals the sequence of {sgl} calls on the generated vectors")
+
+
+def main_parpairs_all(skip=()):
+    rc = 0
+    for t in PAR_PAIRS:
+        if t in skip:
+            continue
+        try:
+            main_parpair(t)
+        except SystemExit as e:
+            rc = rc or (e.code or 0)
+    sys.exit(rc)
